@@ -59,7 +59,7 @@ SOURCES = {
 # the check has been re-run on the new text and the snapshot retaken.
 _ALL_TRANSFORM = ['transform/%s.py' % m for m in ('basics', 'conversions', 'dedup', 'fills', 'hashjoins', 'headers', 'joins', 'maps',
                                                    'reductions', 'regex', 'reshape', 'selects', 'setops', 'sorts', 'unpacks', 'validation')]
-_CORE = ['comparison.py', 'util/base.py', 'config.py']
+_CORE = ['comparison.py', 'compat.py', 'util/base.py', 'config.py']
 _UTIL = ['util/materialise.py', 'util/timing.py', 'util/vis.py', 'util/lookups.py', 'util/counting.py', 'util/random.py']
 _IO = ['io/base.py', 'io/sources.py', 'io/csv.py', 'io/csv_py3.py', 'io/pickle.py', 'io/text.py', 'io/json.py', 'io/html.py']
 T_ = lambda *ms: ['transform/%s.py' % m for m in ms]
@@ -67,7 +67,7 @@ FILES = {
     'C01': _CORE + T_('sorts', 'hashjoins') + ['util/materialise.py', 'util/random.py', 'io/json.py', 'io/db.py', 'io/sources.py'],
     'C02': _CORE + _ALL_TRANSFORM + _UTIL + _IO,
     'C03': _CORE + _ALL_TRANSFORM + _UTIL,
-    'C04': _CORE + ['compat.py'] + T_('sorts', 'selects', 'joins'),
+    'C04': _CORE + T_('sorts', 'selects', 'joins'),
     'C05': _CORE + T_('sorts', 'basics'),
     'C06': _CORE + T_('joins', 'basics', 'sorts'),
     'C07': _CORE + T_('hashjoins', 'joins', 'sorts') + ['util/lookups.py'],
